@@ -29,7 +29,7 @@ from units import c09_dispatch as D
 
 NAME = "c05_ctors"
 ENGINE = "verus"
-PROPS = ("C05", "C09", "C12", "C11", "C04")
+PROPS = ("C05", "C09", "C12", "C11", "C04", "C08")
 MSMOD, TYPES, EXT, CORR, MALL = _tree.MSMOD, _tree.TYPES, _tree.EXT, _tree.CORR, _tree.MALL
 LIB = "src/lib.rs"
 SEGWIT, SH = "src/descriptor/segwitv0.rs", "src/descriptor/sh.rs"
@@ -542,15 +542,19 @@ def build(repo):
         g = ("proof { const_corr_table(); ax_t_%s(%s); ax_t_%s(ast.ms.ty);\n            if %s is Ok && %s is Ok { lemma_abs_injective(%s->Ok_0, %s->Ok_0); } }\n        "
              % (rule_, args, name, lhs, rhs, lhs, rhs))
         return [lit("R10", "Ok(AstElemExt {", g + "Ok(AstElemExt {")]
-    for row, name, kind, rej in zip(rows, names, kinds, rejects):
+    # C08: what the compiler attaches through from_components_unchecked must be what from_ast would compute (mechanism named by
+    # the property); the instances are named by their POSITION in all_casts() so that a row whose node builder changes keeps its
+    # obligation ids (and fails them) instead of disappearing from the expected list
+    AC = A + ("C08",)
+    for i_row, (row, name, kind, rej) in enumerate(zip(rows, names, kinds, rejects)):
         ens = [
-            Clause("wraps_input", A, "r is Ok ==> wraps(r->Ok_0.ms.node, ast.ms)"),
-            Clause("ty_is_type_check", A, "r is Ok ==> %s(r->Ok_0.ms.ty) == ty_of(r->Ok_0.ms.node)" % OKT),
-            Clause("ext_is_type_check", A, "r is Ok ==> r->Ok_0.ms.ext == ext_of(r->Ok_0.ms.node)"),
+            Clause("wraps_input", AC, "r is Ok ==> wraps(r->Ok_0.ms.node, ast.ms)"),
+            Clause("ty_is_type_check", AC, "r is Ok ==> %s(r->Ok_0.ms.ty) == ty_of(r->Ok_0.ms.node)" % OKT),
+            Clause("ext_is_type_check", AC, "r is Ok ==> r->Ok_0.ms.ext == ext_of(r->Ok_0.ms.node)"),
         ]
         if rej is not None:
-            ens.append(Clause("fails_iff_rule_rejects", A, "r is Err <==> %s is Err" % rej[0]))
-        vf.fn(COMPILER, "impl:Cast<Pk, Ctx>/fn:cast", rename="cast__" + kind, qual="Cast", props=("C05", "C09", "C11"), rewrites=[
+            ens.append(Clause("fails_iff_rule_rejects", AC, "r is Err <==> %s is Err" % rej[0]))
+        vf.fn(COMPILER, "impl:Cast<Pk, Ctx>/fn:cast", rename="cast__row%d" % i_row, qual="Cast", props=("C05", "C09", "C11", "C08"), rewrites=[
             instantiate_cast(row),
             lit("R6", "(&self, ast:", "<Pk: MiniscriptKey, Ctx: ScriptContext>(ast:"),
             lit("R7", "types::Type::", "Type::", required=False), lit("R7", "types::ExtData::", "ExtData::", required=False),
@@ -564,15 +568,15 @@ def build(repo):
     vf.trust("comp_type_check_stub (external_body, unconstrained)", "stands for CompilerExtData::type_check_with_child(&ast, lookup_ext) and its lookup closure (f64 cost figures)")
     with vf.block("impl<Pk: MiniscriptKey, Ctx: ScriptContext> AstElemExt<Pk, Ctx>"):
         for fn in ("binary", "ternary"):
-            vf.fn(COMPILER, "impl:AstElemExt<Pk, Ctx>#1/fn:%s" % fn, qual="AstElemExt", props=("C05", "C09", "C11"), rewrites=[
+            vf.fn(COMPILER, "impl:AstElemExt<Pk, Ctx>#1/fn:%s" % fn, qual="AstElemExt", props=("C05", "C09", "C11", "C08"), rewrites=[
                 sub("R7-closure-to-stub", r"let lookup_ext = \|n\| match n \{.*?\};\n", "", flags=re.S),
                 lit("R7-closure-to-stub", "CompilerExtData::type_check_with_child(&ast, lookup_ext)", "comp_type_check_stub(&ast)"),
                 lit("R7", "types::Type::", "Type::"), lit("R7", "types::ExtData::", "ExtData::"), lit("R7", "types::Error", "TypeError"),
             ], contract=Contract(ret="o", ensures=[
-                Clause("node", A, "o is Ok ==> o->Ok_0.ms.node == ast"),
-                Clause("ty_is_type_check", A, "o is Ok ==> %s(o->Ok_0.ms.ty) == ty_of(ast)" % OKT),
-                Clause("ext_is_type_check", A, "o is Ok ==> o->Ok_0.ms.ext == ext_of(ast)"),
-                Clause("fails_iff_rule_rejects", A, "o is Err <==> ty_of(ast) is Err"),
+                Clause("node", AC, "o is Ok ==> o->Ok_0.ms.node == ast"),
+                Clause("ty_is_type_check", AC, "o is Ok ==> %s(o->Ok_0.ms.ty) == ty_of(ast)" % OKT),
+                Clause("ext_is_type_check", AC, "o is Ok ==> o->Ok_0.ms.ext == ext_of(ast)"),
+                Clause("fails_iff_rule_rejects", AC, "o is Err <==> ty_of(ast) is Err"),
             ]))
 
     # ---- descriptor constructors that go through the hand-written Miniscript::sortedmulti --------------------------------------
